@@ -1403,7 +1403,7 @@ def evaluate_depth(ctx, exes, cases, stats):
             if r["crash"] or r["x"]:
                 ctx.violation(strip(c), "is_connected / compute_shortest_distances_matrix abort, hang or throw on the path "
                                         "graph with N = %d, k = 2 (%s build, %d threads, thread stack 8 MiB): %s" % (
-                                            N, b, c["threads"], str(r["crash"] or r["x"])[:500]))
+                                            N, b, c["threads"], " ".join(str(r["crash"] or r["x"]).split())[:500]))
                 continue
             conn = r["tags"].get("conn")
             if conn is None or conn[2] != ["0x1p+0", "0x0p+0"]:
